@@ -536,7 +536,12 @@ def rule_optional_overrides(run):
     run.end()
 
 
-RULES = [rule_wrappers, rule_polarity, rule_reset_set, rule_first_state, rule_defaults, rule_combined, rule_instance_defaults, rule_optional_overrides]
+def rule_reset_after_lowering(run):
+    from . import c01
+    c01.rule_reset_after_lowering(run)   # the state signal is in the reset set: reset restarts the coroutine from any state
+
+
+RULES = [rule_wrappers, rule_polarity, rule_reset_set, rule_first_state, rule_defaults, rule_combined, rule_instance_defaults, rule_optional_overrides, rule_reset_after_lowering]
 LEVEL = "other"
 EXPLANATION = (
     "Shape analysis of everything the reset behaviour of every design is built from: the std.sequential wrappers "
